@@ -23,6 +23,23 @@ Proof.
   repeat (apply andb_prop in H as [H ?]). assumption.
 Qed.
 
+(* every addenda field of the two entry structs gets its type code inferred (nothing dropped from set…RecordType) *)
+Definition addenda_fields (t : ty) : list string :=
+  flat_map (fun mf => if String.prefix "Addenda" (f_name (fst mf)) && is_node_ty (snd mf) then [f_name (fst mf)] else [])
+           (struct_fields t).
+
+Definition struct_named (n : string) : option ty :=
+  match find (fun p => String.eqb (fst p) n) json_structs with Some p => Some (snd p) | None => None end.
+
+Lemma typecodes_complete :
+  map fst (pt_typecodes json_post_table) = ["EntryDetail"; "IATEntryDetail"] /\
+  forallb (fun e => match struct_named (fst e) with
+                    | Some t => forallb (fun f => existsb (fun p => String.eqb f (fst p)) (snd e)) (addenda_fields t)
+                                && negb (Nat.eqb (length (addenda_fields t)) 0)
+                    | None => false
+                    end) (pt_typecodes json_post_table) = true.
+Proof. vm_compute. split; reflexivity. Qed.
+
 (* the removal loop of upsertOffsets removes every OFFSET entry (slice Entries[i+1:], followed by i--) *)
 Lemma offset_loop_shape : (match t_tail offset_table with TailSucc => true | _ => false end) && t_redo offset_table && negb (t_unknown offset_table) = true.
 Proof. vm_compute. reflexivity. Qed.
@@ -38,9 +55,6 @@ Lemma file_covers : covers hid_fields keep_fields (problems T_File (start T_File
 Proof. vm_compute. reflexivity. Qed.
 
 (* ---- every field a record line is made of is serialised, or one of the kept excused fields *)
-
-Definition struct_named (n : string) : option ty :=
-  match find (fun p => String.eqb (fst p) n) json_structs with Some p => Some (snd p) | None => None end.
 
 Definition scalar_ty (t : ty) : bool := match t with TStr | TInt | TBool => true | _ => false end.
 
